@@ -55,6 +55,7 @@ def main():
     ap.add_argument('--digests-only', action='store_true',
                     help='run --runs runs through the parallel search driver and print {index: event-log digest}')
     ap.add_argument('--no-shrink', action='store_true')
+    ap.add_argument('--first', action='store_true', help='stop the search at the first violation that is not a known finding')
     args = ap.parse_args()
     if args.tier not in ('quick', 'thorough'):
         args.tier = 'quick'
@@ -163,6 +164,8 @@ def main():
             harness_error('determinism self-test timed out')
 
     # ---------------------------------------------------------------- search
+    if args.first:
+        options['max_violations'] = 1
     t0 = time.time()
     try:
         stats, violations, logs, errors = runner.run_search(
